@@ -55,6 +55,8 @@ def problem_pairs(prog, report):
 
 
 def run(prog, report, tier):
+    from .. import signs as _sg
+    _sg.check_stale_loop_names(prog, report, [('src/error_estimator.py', 'ErrorEstimator.residual')])
     signs.check_signs(prog, report)
     signs.check_driver_index(prog, report)
     signs.check_residual_ranks(prog, report)
